@@ -2,7 +2,8 @@ SPECIFICATION Spec
 CONSTANTS
   Subjects = {"alice", "bob"}
   MaxReq = 3
+  MaxIdp = 2
   MaxSteps = 7
-INVARIANTS Authentic NoReplay PendingSane Emit
+INVARIANTS Authentic NoReplay PendingSane AnswersOnlyIdP Emit
 PROPERTIES LogoutOnlyByIdP
 CHECK_DEADLOCK FALSE
